@@ -23,7 +23,7 @@ import (
 
 // op is one step of a history.
 type op struct {
-	Op     string `json:"op"` // push | tag | untag | stray | delete | gc
+	Op     string `json:"op"` // push | tag | untag | stray | delete | gc | gcfail (GC while the blob of Node is corrupt)
 	Node   int    `json:"node"`
 	Ref    string `json:"ref,omitempty"`
 	AutoGC bool   `json:"autogc,omitempty"`
@@ -47,6 +47,8 @@ func (o op) String() string {
 		return fmt.Sprintf("d%d", o.Node)
 	case "gc":
 		return "G"
+	case "gcfail":
+		return fmt.Sprintf("F%d", o.Node)
 	}
 	return "?"
 }
@@ -128,6 +130,8 @@ type env struct {
 	// gcSeen: nodes that were stored when the last GC finished (nil before the first GC)
 	gcSeen map[int]bool
 	probe  bool // this env is an order-dependence replay
+	// lastErr: what the last Delete / GC returned
+	lastErr error
 }
 
 func tmpBase() string {
@@ -383,6 +387,8 @@ func (e *env) apply(o op, judge bool) {
 		e.doDelete(o, judge)
 	case "gc":
 		e.doGC(judge)
+	case "gcfail":
+		e.doGCFail(o, judge)
 	}
 }
 
@@ -438,6 +444,7 @@ func (e *env) doDelete(o op, judge bool) {
 	}
 	e.st.AutoGC = o.AutoGC
 	err := e.st.Delete(ctx, e.g.Nodes[t].Desc)
+	e.lastErr = err
 	if !judge {
 		// replay: follow what happened
 		for _, nd := range e.g.Nodes {
@@ -472,6 +479,7 @@ func (e *env) doDelete(o op, judge bool) {
 
 	// coverage of the shapes the property is about
 	tagged := e.m.taggedSet()
+	multiply := false
 	if len(R) >= 2 {
 		e.res.Count("deletes_with_cascade", 1)
 	}
@@ -498,6 +506,14 @@ func (e *env) doDelete(o op, judge bool) {
 		if n != t && e.m.everTagged[n] {
 			e.res.Count("shape_delete_collects_formerly_tagged", 1)
 		}
+		// reached twice by the cascade: as an untagged referrer of removed
+		// content and again as a node that loses its last predecessor
+		if nd := e.g.Nodes[n]; n != t && !unjudged[n] && nd.Kind.IsManifestKind() && nd.Subject >= 0 && R[nd.Subject] && len(e.m.storedPreds(n)) > 0 {
+			multiply = true
+		}
+	}
+	if multiply {
+		e.res.Count("shape_delete_multiply_reached", 1)
 	}
 	for n := range unjudged {
 		if a.exists[n] {
@@ -644,6 +660,11 @@ func (e *env) doDelete(o op, judge bool) {
 	for n := range R {
 		e.dropNode(n)
 	}
+	if multiply && !e.probe {
+		// which of the two routes reaches the node first is a map iteration
+		// order inside the library: the same history must end the same way
+		e.replayProbe("delete", a, extra)
+	}
 }
 
 // dropNode removes a node and the tags pointing at it from the model.
@@ -679,13 +700,8 @@ func strayClass(p string) string {
 // (and is therefore an unreachable blob file for GC).
 func strayIsBlobFile(p string) bool { return strings.HasPrefix(strayClass(p), "digest-named-") }
 
-func (e *env) doGC(judge bool) {
-	var b *obs
-	if judge {
-		if b = e.before(); b == nil {
-			return
-		}
-	}
+// runGC calls GC under the termination monitor.
+func (e *env) runGC() (err error, steps int64, maxKey int) {
 	hook.mu.Lock()
 	hook.counts = map[string]int{}
 	hook.maxKey = 0
@@ -698,12 +714,162 @@ func (e *env) doGC(judge bool) {
 		return string(bs)
 	}
 	hook.mu.Unlock()
-	err := e.st.GC(ctx)
+	err = e.st.GC(ctx)
+	e.lastErr = err
 	hook.mu.Lock()
 	hook.bound = 0
-	steps := hook.total - before
-	maxKey := hook.maxKey
+	steps = hook.total - before
+	maxKey = hook.maxKey
 	hook.mu.Unlock()
+	return
+}
+
+// gcFailCandidates: stored manifests GC is certain to read (reachable from a tag).
+func (e *env) gcFailCandidates() []int {
+	var out []int
+	k0 := e.m.closure(e.m.taggedSet())
+	for _, nd := range e.g.Nodes {
+		if k0[nd.ID] && nd.Kind.IsManifestKind() {
+			out = append(out, nd.ID)
+		}
+	}
+	return out
+}
+
+// doGCFail runs GC while the blob of a reachable manifest is corrupt on disk
+// (same size, other bytes), then restores the blob. A GC that reports failure
+// must not have removed anything reachable nor changed any tag or predecessor
+// relation (the statement's "leaving every reachable node, tag and predecessor
+// relation intact" holds for every GC call), and the operations that follow
+// are judged against the unchanged model.
+func (e *env) doGCFail(o op, judge bool) {
+	var b *obs
+	if judge {
+		if b = e.before(); b == nil {
+			return
+		}
+	}
+	p := filepath.Join(e.dir, "blobs", filepath.FromSlash(blobRel(e.g.Nodes[o.Node].Desc.Digest)))
+	orig, rerr := os.ReadFile(p)
+	fi, serr := os.Stat(p)
+	if rerr != nil || serr != nil || len(orig) == 0 {
+		e.violate("harness:gcfail", fmt.Sprintf("cannot read blob of node %d: %v %v", o.Node, rerr, serr), nil)
+		return
+	}
+	bad := append([]byte{}, orig...)
+	bad[0] ^= 0x5a
+	os.Chmod(p, 0o644)
+	if err := os.WriteFile(p, bad, 0o644); err != nil {
+		e.violate("harness:gcfail", err.Error(), nil)
+		return
+	}
+	err, _, _ := e.runGC()
+	_, goneErr := os.Stat(p)
+	os.WriteFile(p, orig, 0o644)
+	os.Chmod(p, fi.Mode().Perm())
+	if !judge {
+		for _, nd := range e.g.Nodes {
+			if ok, _ := e.st.Exists(ctx, nd.Desc); !ok && e.m.stored[nd.ID] {
+				e.dropNode(nd.ID)
+			}
+		}
+		return
+	}
+	extra := map[string]any{"corrupted": e.nodeName(o.Node), "gc_error": fmt.Sprint(err)}
+	if goneErr != nil {
+		e.violate("gc-removes-reachable", fmt.Sprintf("GC (run while the blob of %s was corrupt) removed that blob, which is reachable from a tagged node", e.nodeName(o.Node)), extra)
+		return
+	}
+	a := e.observe()
+	if err == nil {
+		// GC did not notice: not judged here; follow what happened
+		e.res.Count("gc_failed_injection_unnoticed", 1)
+		for _, nd := range e.g.Nodes {
+			if !a.exists[nd.ID] && e.m.stored[nd.ID] {
+				e.dropNode(nd.ID)
+			}
+		}
+		for sp := range e.m.strays {
+			if !a.files[sp] {
+				delete(e.m.strays, sp)
+			}
+		}
+		return
+	}
+	e.res.Count("gc_failed_injected", 1)
+	// nothing reachable may be gone, no tag and no predecessor relation may have changed;
+	// unreachable blob files may or may not have been swept before the failure
+	kmin, kmax := e.m.gcExpect(b.indexed)
+	_ = kmin
+	for _, nd := range e.g.Nodes {
+		n := nd.ID
+		if e.m.stored[n] && kmax[n] && !a.exists[n] {
+			e.violate("gc-removes-reachable", fmt.Sprintf("a failing GC (%v) removed reachable node %s", err, e.nodeName(n)), extra)
+			return
+		}
+		if !e.m.stored[n] && a.exists[n] {
+			e.violate("gc-created-node", fmt.Sprintf("node %s appeared during a failing GC", e.nodeName(n)), extra)
+			return
+		}
+	}
+	for ref, n := range e.m.tags {
+		if got := a.tags[ref]; got != gen.Key(e.g.Nodes[n].Desc) {
+			e.violate("gc-tags-changed", fmt.Sprintf("failing GC (%v): tag %q of node %s now gives %q", err, ref, e.nodeName(n), got), extra)
+			return
+		}
+	}
+	for ref, got := range a.tags {
+		if _, ok := e.m.tags[ref]; !ok {
+			e.violate("gc-tags-changed", fmt.Sprintf("failing GC: tag %q (%s) appeared", ref, got), extra)
+			return
+		}
+	}
+	keptKeys := map[string]bool{}
+	for _, nd := range e.g.Nodes {
+		if a.exists[nd.ID] {
+			keptKeys[gen.Key(nd.Desc)] = true
+		}
+	}
+	for _, nd := range e.g.Nodes {
+		if !a.exists[nd.ID] {
+			continue
+		}
+		want := map[string]bool{}
+		for k := range b.preds[nd.ID] {
+			if keptKeys[k] {
+				want[k] = true
+			}
+		}
+		if !sameSet(want, a.preds[nd.ID]) {
+			e.violate("gc-failed-predecessors-changed", fmt.Sprintf("a failing GC (%v) changed Predecessors(%s): was %v, is %v", err, e.nodeName(nd.ID), short(b.preds[nd.ID]), short(a.preds[nd.ID])), extra)
+			return
+		}
+	}
+	// follow the (permitted) partial sweep of unreachable files
+	for _, nd := range e.g.Nodes {
+		if e.m.stored[nd.ID] && !a.exists[nd.ID] {
+			e.dropNode(nd.ID)
+		}
+	}
+	for sp := range e.m.strays {
+		if !a.files[sp] {
+			if !strayIsBlobFile(sp) {
+				e.violate("gc-removes-nonblob-file", fmt.Sprintf("a failing GC removed blobs/%s", sp), extra)
+				return
+			}
+			delete(e.m.strays, sp)
+		}
+	}
+}
+
+func (e *env) doGC(judge bool) {
+	var b *obs
+	if judge {
+		if b = e.before(); b == nil {
+			return
+		}
+	}
+	err, steps, maxKey := e.runGC()
 	defer func() {
 		e.gcSeen = map[int]bool{}
 		for n, ok := range e.m.stored {
@@ -913,15 +1079,15 @@ func (e *env) doGC(judge bool) {
 		e.dropNode(n)
 	}
 	if len(ambiguous) > 0 && !e.probe {
-		e.orderProbe(a, extra)
+		e.replayProbe("gc", a, extra)
 	}
 }
 
-// orderProbe re-executes the whole history (ending in the GC just judged) on
+// replayProbe re-executes the whole history (ending in the GC / Delete just judged) on
 // fresh stores and compares the resulting blobs/ listings: the same history
 // must give the same result whatever order the library happens to visit its
 // maps in.
-func (e *env) orderProbe(a *obs, extra map[string]any) {
+func (e *env) replayProbe(kind string, a *obs, extra map[string]any) {
 	ops := append([]op{}, e.ops...)
 	for k := 0; k < orderProbes; k++ {
 		r, err := newEnv(e.g, &worker.Result{})
@@ -933,8 +1099,21 @@ func (e *env) orderProbe(a *obs, extra map[string]any) {
 			r.apply(o, false)
 		}
 		files := r.observe().files
+		lastErr := r.lastErr
 		r.close()
-		e.res.Count("gc_order_probe_replays", 1)
+		e.res.Count(kind+"_order_probe_replays", 1)
+		if kind == "delete" && lastErr != nil {
+			x := map[string]any{"replay": k, "error_in_replay": lastErr.Error()}
+			for kk, v := range extra {
+				x[kk] = v
+			}
+			key := "delete-error"
+			if errors.Is(lastErr, errdef.ErrNotFound) {
+				key = "delete-absent-successor"
+			}
+			e.violate(key, fmt.Sprintf("the same history replayed on a fresh store: the final Delete (cascade reaches a manifest twice) returned %v although it returned nil in the first run", lastErr), x)
+			return
+		}
 		if !sameSet(files, a.files) {
 			var onlyA, onlyB []string
 			for p := range a.files {
@@ -959,7 +1138,7 @@ func (e *env) orderProbe(a *obs, extra map[string]any) {
 					}
 				}
 			}
-			e.violate("gc-order-dependent", fmt.Sprintf("the same history run twice ends with different blobs/ contents after GC (nodes %v survive in one run and not in the other)", names), x)
+			e.violate(kind+"-order-dependent", fmt.Sprintf("the same history run twice ends with different blobs/ contents after the final %s (nodes %v survive in one run and not in the other)", kind, names), x)
 			return
 		}
 	}
